@@ -10,7 +10,7 @@ import numpy as np
 import termlib
 import vlib
 
-COQ_TARGETS = ["Model/Discrete.vo", "Proofs/TermA.vo", "Proofs/TermB.vo", "Proofs/TermER.vo"]
+COQ_TARGETS = ["Model/Discrete.vo", "Proofs/TermA.vo", "Proofs/TermB.vo", "Proofs/TermER.vo", "Proofs/DiscreteProofs.vo"]
 
 
 def arglist(cls, p):
